@@ -38,6 +38,10 @@ type C19Plan struct {
 	SlowK     int    `json:"slow_k,omitempty"`
 	SlowMs    int    `json:"slow_ms,omitempty"`
 	SlowEarly bool   `json:"slow_early,omitempty"` // count the slow operation from the in-sync notification instead of the trigger
+	// ApiFlood: once in sync, four application goroutines hand this many transactions to the node
+	// (Node.HandleTx) while every handler callback takes 15 ms, so that the unconfirmed-tx queue (100)
+	// is full and several producers are blocked on it when the stop request arrives
+	ApiFlood int `json:"api_flood,omitempty"`
 }
 
 type livePeer struct {
@@ -362,8 +366,12 @@ func c19Run(plan *C19Plan) (*nodeViolation, map[string]bool) {
 	for k := 0; k < 12; k++ {
 		streamSpecs = append(streamSpecs, TxSpec{Ins: []TxInSpec{{Fund: 900 + k}}, Rel: k % 2})
 	}
-	all := txUniverse(append(specs, streamSpecs...), fetch)
-	blockTxs, streamTxs := all[:len(specs)], all[len(specs):]
+	var floodSpecs []TxSpec
+	for k := 0; k < plan.ApiFlood; k++ {
+		floodSpecs = append(floodSpecs, TxSpec{Ins: []TxInSpec{{Fund: 2000 + k}}, Rel: k % 2})
+	}
+	all := txUniverse(append(append(specs, streamSpecs...), floodSpecs...), fetch)
+	blockTxs, streamTxs, floodTxs := all[:len(specs)], all[len(specs):len(specs)+len(streamSpecs)], all[len(specs)+len(streamSpecs):]
 	prev := tree.Genesis
 	for b := 1; b <= plan.Blocks; b++ {
 		var body []*wire.MsgTx
@@ -532,6 +540,28 @@ func c19Run(plan *C19Plan) (*nodeViolation, map[string]bool) {
 					}()
 				})
 			}
+		}
+	}
+	if plan.ApiFlood > 0 {
+		h.delay = 15 * time.Millisecond
+		prev := h.onInsync
+		var floodOnce sync.Once
+		h.onInsync = func() {
+			if prev != nil {
+				prev()
+			}
+			floodOnce.Do(func() {
+				flags2.set("api-flood")
+				for g := 0; g < 4; g++ {
+					go func(g int) {
+						for k := g; k < len(floodTxs); k += 4 {
+							if err := node.HandleTx(ctx, floodTxs[k]); err != nil {
+								return // the queue was closed by the shutdown
+							}
+						}
+					}(g)
+				}
+			})
 		}
 	}
 	runDone := make(chan error, 1)
@@ -721,6 +751,13 @@ func genC19(t *rapid.T) *C19Plan {
 		p.Start = rapid.IntRange(1, 3).Draw(t, "deepstart")
 		p.K = rapid.IntRange(0, 4).Draw(t, "deepk")
 	}
+	if rapid.IntRange(0, 7).Draw(t, "flood") == 0 {
+		// the stop request finds the unconfirmed-tx queue full with producers waiting
+		p.Trigger, p.Action, p.TxTraffic = "insync", rapid.SampledFrom([]string{"stop", "stop", "close-stop"}).Draw(t, "floodaction"), false
+		p.ApiFlood = rapid.SampledFrom([]int{130, 180}).Draw(t, "apiflood")
+		p.K = rapid.IntRange(1, 12).Draw(t, "floodk")
+		return p
+	}
 	if rapid.IntRange(0, 2).Draw(t, "slow") == 0 {
 		p.SlowOp = rapid.SampledFrom([]string{"write", "write", "read", "fetch", "fetch"}).Draw(t, "slowop")
 		p.SlowK = rapid.IntRange(0, 3).Draw(t, "slowk")
@@ -730,7 +767,7 @@ func genC19(t *rapid.T) *C19Plan {
 	return p
 }
 
-const c19Rule = "live mode: the real Node.Run against a reactive scripted peer on loopback TCP (serves headers/blocks from a generated chain with transactions, pings every 40 ms, optional inv/tx stream once in sync); at a logical trigger (while connecting, mid-handshake, k-th header request, k-th block served, inside the k-th handler callback, some ms after in-sync, or after streamed transactions were written at a block and then mined) Stop is requested or the connection is closed/reset, in a third of the plans with one storage write / read / output fetch after the trigger taking 60-400 ms longer so that it is in flight during the shutdown or reconnect; oracle: Stop and Run return (30 s), no callback starts after Stop returned, a fresh node reloads exactly the chain / unconfirmed set / peers, after a lost connection the node reconnects with its stored tip, resumes to the peer's tip and never re-announces a height; a verdict counts when the plan fails again with the same key when run on its own (two more tries); non-trivial = the trigger lies strictly inside the protocol exchange (not trigger-not-reached); distinct by plan hash; schedules are sampled by the Go scheduler, not enumerated"
+const c19Rule = "live mode: the real Node.Run against a reactive scripted peer on loopback TCP (serves headers/blocks from a generated chain with transactions, pings every 40 ms, optional inv/tx stream once in sync); at a logical trigger (while connecting, mid-handshake, k-th header request, k-th block served, inside the k-th handler callback, some ms after in-sync, or after streamed transactions were written at a block and then mined) Stop is requested or the connection is closed/reset, in a third of the plans with one storage write / read / output fetch after the trigger taking 60-400 ms longer so that it is in flight during the shutdown or reconnect; oracle: Stop and Run return (30 s), no callback starts after Stop returned, a fresh node reloads exactly the chain / unconfirmed set / peers, after a lost connection the node reconnects with its stored tip, resumes to the peer's tip and never re-announces a height; one plan in eight floods the node through its own API (130-180 transactions from four goroutines, 15 ms per handler callback) so that the stop request finds the unconfirmed-transaction queue full with producers waiting; a verdict counts when the plan fails again with the same key when run on its own (two more tries); non-trivial = the trigger lies strictly inside the protocol exchange (not trigger-not-reached); distinct by plan hash; schedules are sampled by the Go scheduler, not enumerated"
 
 func TestC19Live(t *testing.T) {
 	rep := verifkit.NewReport("C19", "TestC19Live", c19Rule)
